@@ -25,6 +25,7 @@ from hv.builders import vhd as bvhd
 from hv.builders import vhdx as bvhdx
 from hv.builders import vmdk as bvmdk
 from hv.builders import vmxcrypt as bvx
+from hv.core import track as core_track
 from hv.core import CaseTimeout, Outcome
 from hv.props import c12, c20
 
@@ -339,7 +340,7 @@ def drive(kind, data: bytes, spec):
     if kind == "qcow2":
         from dissect.hypervisor.disk.qcow2 import ALLOW_NO_BACKING_FILE, QCow2
 
-        q = QCow2(io.BytesIO(data), backing_file=ALLOW_NO_BACKING_FILE)
+        q = QCow2(core_track(data), backing_file=ALLOW_NO_BACKING_FILE)
         stage = "opened"
         touch_stream(q)
         for snap in list(q.snapshots)[:4]:
@@ -347,7 +348,7 @@ def drive(kind, data: bytes, spec):
     elif kind == "vmdk":
         from dissect.hypervisor.disk.vmdk import VMDK
 
-        v = VMDK(io.BytesIO(data))
+        v = VMDK(core_track(data))
         stage = "opened"
         touch_stream(v)
     elif kind == "vmdk-desc":
@@ -383,13 +384,13 @@ def drive(kind, data: bytes, spec):
     elif kind == "hyperv":
         from dissect.hypervisor.descriptor.hyperv import HyperVFile
 
-        hf = HyperVFile(io.BytesIO(data))
+        hf = HyperVFile(core_track(data))
         stage = "opened"
         hf.as_dict()
     elif kind == "envelope":
         from dissect.hypervisor.util.envelope import Envelope
 
-        e = Envelope(io.BytesIO(data))
+        e = Envelope(core_track(data))
         stage = "opened"
         e.decrypt(bytes.fromhex(c12.ENV_SPEC["key"]))
     elif kind == "keystore":
@@ -414,7 +415,7 @@ def drive(kind, data: bytes, spec):
     elif kind == "vmtar":
         from dissect.hypervisor.util import vmtar
 
-        t = vmtar.open(fileobj=io.BytesIO(data))
+        t = vmtar.open(fileobj=core_track(data))
         stage = "opened"
         for m in t.getmembers()[:50]:
             if m.isreg():
